@@ -5,6 +5,8 @@ mod rng;
 mod fixedwindow;
 mod fsutil;
 mod levelgate;
+mod reconfig;
+mod reloader;
 mod rolling;
 mod routing;
 mod util;
@@ -20,6 +22,8 @@ fn main() {
         "routing" => routing::main(rest),
         "cfgbuild" => cfgbuild::main(rest),
         "fanout" => fanout::main(rest),
+        "reconfig" => reconfig::main(rest),
+        "reloader" => reloader::main(rest),
         "filetrace" => filetrace::main(rest),
         "rolling" => rolling::main(rest),
         "fixedwindow" => fixedwindow::main(rest),
